@@ -46,9 +46,10 @@ Ltac count_bools G :=
   end.
 
 Ltac ttaut :=
+  try discriminate;
   repeat match goal with
-  | H : true = _ |- _ => symmetry in H
-  | H : false = _ |- _ => symmetry in H
+  | H : true = ?b |- _ => lazymatch b with true => clear H | false => discriminate H | _ => symmetry in H end
+  | H : false = ?b |- _ => lazymatch b with false => clear H | true => discriminate H | _ => symmetry in H end
   end;
   repeat match goal with
   | H : ?b = true |- _ = true => revert H; apply tt_imp
